@@ -4,6 +4,8 @@ import PymocaVerif.Model.Simplify
 Helper lemmas for C14/C15 (`Props/C14.lean`, `Props/C15.lean`).  Core Lean only; the field is
 `Lean.Grind.Field`.
 -/
+set_option linter.unusedSectionVars false
+set_option linter.unusedSimpArgs false
 namespace PymocaVerif.Simplify
 open PymocaVerif.AliasRel Lean.Grind
 
@@ -139,5 +141,115 @@ theorem sat_substMeta {I : Interp K} {E : Engine K} (hE : EngineOk I E) {σ : En
     exact ⟨h.eqs, (valok_map hf).1 h.params, (valok_map hf).1 h.consts, h.alias⟩
   · intro h
     exact ⟨h.eqs, (valok_map hf).2 h.params, (valok_map hf).2 h.consts, h.alias⟩
+
+/-! ## the alias relation: stored facts stay true -/
+
+theorem sval_tog (σ : Env K) (x : SName) : sval σ (tog x) = - sval σ x := by
+  obtain ⟨s, n⟩ := x
+  cases s <;> simp [sval, tog] <;> grind
+
+theorem aliases_sval {σ : Env K} {s : AR} (h : AliasOk σ s) {x y : SName} (hy : y ∈ s.aliases x) :
+    sval σ y = sval σ x := by
+  unfold AR.aliases at hy
+  cases hx : s.al x with
+  | none => simp [hx] at hy; rw [hy]
+  | some A => simp [hx] at hy; exact h.1 x A hx y hy
+
+theorem canonical_sval {σ : Env K} {s : AR} (h : AliasOk σ s) (x : SName) :
+    sval σ x = sval σ ((s.canonicalSigned x).2, (s.canonicalSigned x).1) := by
+  unfold AR.canonicalSigned
+  cases hx : s.cmap x with
+  | none => simp
+  | some c => simpa using h.2 x c hx
+
+/-- adding a pair that is equal in `σ` keeps every stored fact true -/
+theorem add_aliasOk {σ : Env K} {s s' : AR} {a b : SName} (h : AliasOk σ s) (hab : sval σ a = sval σ b)
+    (hs : s.add a b = some s') : AliasOk σ s' := by
+  unfold AR.add at hs
+  simp only at hs
+  split at hs
+  · split at hs
+    · simp at hs; subst hs; exact h
+    · simp at hs
+  · simp only [Option.some.injEq] at hs
+    subst hs
+    have hA : ∀ y, y ∈ s.aliases a ++ s.aliases b → sval σ y = sval σ a := by
+      intro y hy
+      rcases List.mem_append.1 hy with hy | hy
+      · exact aliases_sval h hy
+      · rw [aliases_sval h hy, hab]
+    have hI : ∀ y, y ∈ s.aliases (tog a) ++ s.aliases (tog b) → sval σ y = - sval σ a := by
+      intro y hy
+      rcases List.mem_append.1 hy with hy | hy
+      · rw [aliases_sval h hy, sval_tog]
+      · rw [aliases_sval h hy, sval_tog, hab]
+    constructor
+    · intro x A hx y hy
+      simp only at hx
+      split at hx
+      · rename_i hxA
+        simp at hx; subst hx
+        rw [hA y hy, hA x hxA]
+      · split at hx
+        · rename_i hxA
+          simp at hx; subst hx
+          have := hA _ hxA
+          rw [sval_tog] at this
+          rw [hI y hy]; grind
+        · exact h.1 x A hx y hy
+    · intro x c hx
+      simp only at hx
+      have hca := canonical_sval h a
+      split at hx
+      · rename_i hxA
+        simp at hx; subst hx
+        have := hA _ hxA
+        rw [sval_tog] at this
+        simp only [flipIf, Bool.true_xor]
+        have e : sval σ (!(s.canonicalSigned a).2, (s.canonicalSigned a).1) = - sval σ ((s.canonicalSigned a).2, (s.canonicalSigned a).1) := by
+          have := sval_tog σ ((s.canonicalSigned a).2, (s.canonicalSigned a).1)
+          simpa [tog] using this
+        rw [e, ← hca]; grind
+      · split at hx
+        · rename_i hxA
+          simp at hx; subst hx
+          rw [hA x hxA, hca]
+        · exact h.2 x c hx
+
+theorem remove_aliasOk {σ : Env K} {s s' : AR} {a : SName} (h : AliasOk σ s) (hs : s.remove a = some s') :
+    AliasOk σ s' := by
+  unfold AR.remove at hs
+  split at hs
+  · simp at hs; subst hs; exact h
+  · split at hs
+    · simp only at hs
+      split at hs
+      · simp at hs; subst hs
+        constructor
+        · intro x A hx y hy
+          simp only at hx
+          split at hx
+          · simp at hx
+          · exact h.1 x A hx y hy
+        · intro x c hx
+          simp only at hx
+          split at hx
+          · simp at hx
+          · exact h.2 x c hx
+      · simp at hs
+    · simp at hs
+
+theorem removeAliased_aliasOk {σ : Env K} : ∀ {vs : List (Var K)} {s s' : AR}, AliasOk σ s →
+    removeAliased vs s = .ok s' → AliasOk σ s'
+  | [], s, s', h, hs => by simp [removeAliased] at hs; subst hs; exact h
+  | v :: vs, s, s', h, hs => by
+    simp only [removeAliased] at hs
+    split at hs
+    · split at hs
+      · rename_i ar' har
+        exact removeAliased_aliasOk (remove_aliasOk h har) hs
+      · simp at hs
+    · exact removeAliased_aliasOk h hs
+
 
 end PymocaVerif.Simplify
